@@ -145,6 +145,32 @@ def other_frames(rep):
                         bad(f"C03|{kind}|parse", f"parse_frame({src.hex()}) = {p!r}", {"kind": kind, "res": res, "nrdy": nrdy, "ack": ack})
             except Exception as e:  # noqa
                 bad(f"C03|{kind}|raise", f"{kind}(res={res},nRdy={nrdy},ack={ack}): raised {type(e).__name__}: {e}", {"kind": kind, "res": res, "nrdy": nrdy, "ack": ack})
+    # the same sweep on ONE protocol object, ascending and descending, mixed with DATA and RST frames: the bytes written for a
+    # frame must not depend on what the object wrote before, and a buffer handed to the transport must not change afterwards
+    combos = [(kind, cls, enc, res, nrdy, ack) for kind, cls, enc in (("ACK", ash.AckFrame, ref_ash.enc_ack), ("NAK", ash.NakFrame, ref_ash.enc_nak))
+              for res, nrdy, ack in itertools.product((0, 1), (0, 1), range(8))]
+    for order in (combos, combos[::-1]):
+        proto, tr, rec = fresh()
+        for k, (kind, cls, enc, res, nrdy, ack) in enumerate(order):
+            n += 1
+            try:
+                ref = ref_ash.wire(enc(ack, nrdy, res))
+                w = written(proto, tr, cls(res=res, ncp_ready=nrdy, ack_num=ack))
+                if w != ref:
+                    bad(f"C03|{kind}|wire-history", f"{kind}(res={res},nRdy={nrdy},ack={ack}) written as {w.hex()} != {ref.hex()} by an object that wrote other frames before",
+                        {"kind": kind, "res": res, "nrdy": nrdy, "ack": ack, "history": True})
+                if k % 5 == 0:
+                    d = ash.DataFrame(frm_num=k % 8, re_tx=0, ack_num=ack, ezsp_frame=bytes([k, 0x7E, 0x11]))
+                    wd = written(proto, tr, d)
+                    if wd != ref_ash.wire(ref_ash.enc_data(k % 8, 0, ack, bytes([k, 0x7E, 0x11]))):
+                        bad("C03|DATA|wire-history", f"DATA frame written as {wd.hex()} by an object that wrote other frames before", {"kind": "DATA", "history": True})
+                mod = tr.modified_after_write()
+                if mod:
+                    bad("C03|write|buffer-modified-after-write", f"an object handed to transport.write() ({mod[0][0].hex()}) was modified afterwards (now {mod[0][1].hex()}): "
+                        "a transport that queues it sends other bytes", {"kind": kind, "history": True})
+                    break
+            except Exception as e:  # noqa
+                bad(f"C03|{kind}|raise", f"history sweep {kind}(res={res},nRdy={nrdy},ack={ack}): raised {type(e).__name__}: {e}", {"kind": kind, "history": True})
     # RST
     n += 1
     proto, tr, rec = fresh()
